@@ -6,6 +6,7 @@ Nothing here imports or executes microjs: the package is only parsed with `ast`.
 from __future__ import annotations
 
 import ast
+import copy
 import builtins
 import hashlib
 import os
@@ -153,6 +154,133 @@ BUILTIN_EXC["json.JSONDecodeError"] = "ValueError"
 BUILTIN_EXC["struct.error"] = "Exception"
 
 
+# ---- `with self.<generator context manager>(..): BODY` read as the statements it stands for ---------------------
+class _Subst(ast.NodeTransformer):
+    def __init__(self, env: Dict[str, ast.AST]):
+        self.env = env
+
+    def visit_Name(self, node: ast.Name):
+        if isinstance(node.ctx, ast.Load) and node.id in self.env:
+            return ast.copy_location(copy.deepcopy(self.env[node.id]), node)
+        return node
+
+
+def _fold_none_tests(stmts: List[ast.stmt]) -> List[ast.stmt]:
+    """`if None is not None: ...` and `if <literal> is None: ...` decided; everything else kept."""
+    out: List[ast.stmt] = []
+    for st in stmts:
+        if isinstance(st, ast.If) and isinstance(st.test, ast.Compare) and len(st.test.ops) == 1 and isinstance(st.test.ops[0], (ast.Is, ast.IsNot)) and isinstance(st.test.left, ast.Constant) and isinstance(st.test.comparators[0], ast.Constant):
+            same = st.test.left.value is st.test.comparators[0].value
+            truth = same if isinstance(st.test.ops[0], ast.Is) else not same
+            out += _fold_none_tests(st.body if truth else st.orelse)
+        else:
+            out.append(st)
+    return out
+
+
+def _cm_shape(fn: ast.FunctionDef):
+    """(pre, inner_pre, post, guarded) for a generator context manager of one of the two shapes
+           pre...; yield; post...                       (guarded False)
+           pre...; try: inner_pre...; yield  finally: post...      (guarded True)
+    or None."""
+    body = [x for x in fn.body if not (isinstance(x, ast.Expr) and isinstance(x.value, ast.Constant))]
+
+    def is_yield(x):
+        return isinstance(x, ast.Expr) and isinstance(x.value, ast.Yield)
+
+    if sum(1 for x in ast.walk(fn) if isinstance(x, (ast.Yield, ast.YieldFrom))) != 1:
+        return None
+    for i, st in enumerate(body):
+        if is_yield(st):
+            return body[:i], [], body[i + 1:], False
+        if isinstance(st, ast.Try) and not st.handlers and not st.orelse and st.body and is_yield(st.body[-1]) and i == len(body) - 1:
+            return body[:i], st.body[:-1], st.finalbody, True
+        if any(isinstance(x, (ast.Yield, ast.YieldFrom)) for x in ast.walk(st)):
+            return None
+    return None
+
+
+def inline_context_managers(tree: ast.Module) -> int:
+    """Replace `with self.m(args): BODY` - where m is a @contextmanager generator method of the same class with one
+    yield - by the statements it stands for, so that every analysis sees the acquire / try / finally it would see had
+    the author written them out (line numbers: those of the with statement).  Returns the number of replacements."""
+    n = 0
+    for cls in [c for c in ast.walk(tree) if isinstance(c, ast.ClassDef)]:
+        cms: Dict[str, Tuple[ast.FunctionDef, tuple]] = {}
+        for m in cls.body:
+            if isinstance(m, ast.FunctionDef) and any((isinstance(d, ast.Name) and d.id == "contextmanager") or (isinstance(d, ast.Attribute) and d.attr == "contextmanager") for d in m.decorator_list):
+                sh = _cm_shape(m)
+                if sh is not None:
+                    cms[m.name] = (m, sh)
+        if not cms:
+            continue
+
+        class _Inline(ast.NodeTransformer):
+            def visit_With(self, node: ast.With):
+                self.generic_visit(node)
+                nonlocal n
+                if len(node.items) != 1 or node.items[0].optional_vars is not None:
+                    return node
+                ce = node.items[0].context_expr
+                if not (isinstance(ce, ast.Call) and isinstance(ce.func, ast.Attribute) and isinstance(ce.func.value, ast.Name) and ce.func.value.id == "self" and ce.func.attr in cms):
+                    return node
+                fn, (pre, inner, post, guarded) = cms[ce.func.attr]
+                params = [a.arg for a in fn.args.args][1:]
+                defaults = [None] * (len(params) - len(fn.args.defaults)) + list(fn.args.defaults)
+                env: Dict[str, ast.AST] = {}
+                for i, p_ in enumerate(params):
+                    if i < len(ce.args):
+                        env[p_] = ce.args[i]
+                    elif defaults[i] is not None:
+                        env[p_] = defaults[i]
+                for kw in ce.keywords:
+                    if kw.arg in params:
+                        env[kw.arg] = kw.value
+                if any(p_ not in env for p_ in params) or any(isinstance(a, ast.Starred) for a in ce.args):
+                    return node
+
+                # locals of the context manager keep out of the caller's way
+                own = {t.id for st in pre + inner + post for x in ast.walk(st) if isinstance(x, (ast.Assign, ast.AugAssign, ast.AnnAssign)) for t in (x.targets if isinstance(x, ast.Assign) else [x.target]) if isinstance(t, ast.Name)}
+                caller_names = {x.id for x in ast.walk(node) if isinstance(x, ast.Name)}
+                ren = {v: f"{v}__{fn.name.strip('_')}" for v in own if v in caller_names}
+
+                def inst(stmts, line):
+                    out = []
+                    for st in stmts:
+                        c = _Subst(env).visit(copy.deepcopy(st))
+                        for x in ast.walk(c):
+                            if isinstance(x, ast.Name) and x.id in ren:
+                                x.id = ren[x.id]
+                            if hasattr(x, "lineno"):
+                                x.lineno = line
+                                x.end_lineno = line
+                        out.append(c)
+                    return _fold_none_tests(out)
+
+                last = getattr(node, "end_lineno", node.lineno) or node.lineno
+                tr = ast.Try(body=inst(inner, node.lineno) + node.body, handlers=[], orelse=[], finalbody=inst(post, last))
+                ast.copy_location(tr, node)
+                if not guarded:
+                    # no try around the yield: what follows it runs only when the block ends normally (a return or an
+                    # exception inside the block closes the generator at the yield)
+                    repl = inst(pre, node.lineno) + node.body + inst(post, last)
+                elif not tr.finalbody:
+                    repl = inst(pre, node.lineno) + inst(inner, node.lineno) + node.body
+                else:
+                    repl = inst(pre, node.lineno) + [tr]
+                n += 1
+                current[0]._inlined_cms = getattr(current[0], "_inlined_cms", set()) | {fn.name}
+                return repl
+
+        current: List[ast.FunctionDef] = [None]  # type: ignore[list-item]
+        for m in cls.body:
+            if isinstance(m, ast.FunctionDef) and m.name not in cms:
+                current[0] = m
+                _Inline().visit(m)
+        ast.fix_missing_locations(cls)
+    return n
+
+
 class Tree:
     """All modules of the package, indexed."""
 
@@ -190,6 +318,8 @@ class Tree:
                     tree = ast.parse(src, filename=path)
                 except SyntaxError as e:
                     raise AnalysisError(f"cannot parse {rel}: {e}")
+                if os.environ.get("VERIF_NO_DESUGAR") != "1":
+                    inline_context_managers(tree)
                 self.modules[modrel] = Module(modrel, path, rel, src, tree)
         self.digest = h.hexdigest()
         if len(self.modules) < 10:
